@@ -401,4 +401,91 @@ theorem BShape.launch {c d : Cfg} (hS : Shape c) (hB : BShape c) {r : Nat × EvK
   · intro p1 hp1 p2 hp2 f1 s1 st1 o1 f2 s2 st2 o2 h1 _
     exact absurd h1 (hnone p1 hp1 f1 s1 st1 o1)
 
+/-! ### the other steps -/
+
+/-- no branch event and no re-entry event in the queue (a top-level event, or nothing): only the record matters -/
+theorem BShape.top {c : Cfg} (hbr : ∀ p ∈ evK c, ∀ g, ¬ brEv p g) (hre : ∀ p ∈ evK c, ∀ g s st o, p.2 ≠ .reenter g s st o)
+    (hb : ∀ b ∈ c.batches, b.1 < c.nextJ) : BShape c := by
+  constructor
+  · intro p hp g hg; exact absurd hg (hbr p hp g)
+  · intro p hp g hg; exact absurd hg (hbr p hp g)
+  · intro p hp _ _ g _ hg; exact absurd hg (hbr p hp g)
+  · intro p hp g s st o hk; exact absurd hk (hre p hp g s st o)
+  · intro p hp g hg; exact absurd hg (hbr p hp g)
+  · intro p hp g hg; exact absurd hg (hbr p hp g)
+  · intro p hp g hg; exact absurd hg (hbr p hp g)
+  · intro p hp g hg; exact absurd hg (hbr p hp g)
+  · exact hb
+  · intro p hp _ _ g s st o _ _ _ _ hk; exact absurd hk (hre p hp g s st o)
+
+/-- one event of the queue is replaced by another with the same Branch stack that is not a re-entry event (the next visit of
+the same sequence); the record is unchanged -/
+theorem BShape.replace {c d : Cfg} (h : BShape c) {x y : Nat × EvKind} (hx : x ∈ evK c)
+    (hmem : ∀ p, p ∈ evK d ↔ (p ∈ evK c ∧ p ≠ x) ∨ p = y) (hstk : evStack y.2 = evStack x.2)
+    (hxv : ∀ g s st o, x.2 ≠ .reenter g s st o) (hyv : ∀ g s st o, y.2 ≠ .reenter g s st o)
+    (hb : d.batches = c.batches) (hn : d.nextJ = c.nextJ) : BShape d := by
+  -- a branch event afterwards has the frame of a branch event before, and the other way round
+  have hto : ∀ p ∈ evK d, ∀ g, brEv p g → ∃ p' ∈ evK c, brEv p' g := by
+    intro p hp g hg
+    rcases (hmem p).mp hp with ⟨hpc, _⟩ | rfl
+    · exact ⟨p, hpc, hg⟩
+    · exact ⟨x, hx, by simp only [brEv] at hg ⊢; rw [← hstk]; exact hg⟩
+  have hfrom : ∀ p ∈ evK c, ∀ g, brEv p g → ∃ p' ∈ evK d, brEv p' g := by
+    intro p hp g hg
+    by_cases hpx : p = x
+    · subst hpx
+      exact ⟨y, (hmem y).mpr (Or.inr rfl), by simp only [brEv] at hg ⊢; rw [hstk]; exact hg⟩
+    · exact ⟨p, (hmem p).mpr (Or.inl ⟨hp, hpx⟩), hg⟩
+  have hre : ∀ p ∈ evK d, ∀ g s st o, p.2 = .reenter g s st o → p ∈ evK c ∧ p ≠ x := by
+    intro p hp g s st o hk
+    rcases (hmem p).mp hp with h | rfl
+    · exact h
+    · exact absurd hk (hyv g s st o)
+  have hrefrom : ∀ p ∈ evK c, ∀ g s st o, p.2 = .reenter g s st o → p ∈ evK d := by
+    intro p hp g s st o hk
+    refine (hmem p).mpr (Or.inl ⟨hp, ?_⟩)
+    intro he; rw [he] at hk; exact hxv g s st o hk
+  constructor
+  · intro p hp g hg i hi hb'
+    obtain ⟨p1, hp1, hg1⟩ := hto p hp g hg
+    obtain ⟨p', hp', g', hg', hi'⟩ := h.bcover p1 hp1 g hg1 i hi hb'
+    obtain ⟨p'', hp'', hg''⟩ := hfrom p' hp' g' hg'
+    exact ⟨p'', hp'', g', hg'', hi'⟩
+  · intro p hp g hg
+    obtain ⟨p1, hp1, hg1⟩ := hto p hp g hg
+    obtain ⟨p', hp', g', hg', hi'⟩ := h.zero p1 hp1 g hg1
+    obtain ⟨p'', hp'', hg''⟩ := hfrom p' hp' g' hg'
+    exact ⟨p'', hp'', g', hg'', hi'⟩
+  · intro p1 hp1 p2 hp2 g1 g2 hg1 hg2
+    obtain ⟨q1, hq1, hq1g⟩ := hto p1 hp1 g1 hg1
+    obtain ⟨q2, hq2, hq2g⟩ := hto p2 hp2 g2 hg2
+    exact h.samemc q1 hq1 q2 hq2 g1 g2 hq1g hq2g
+  · intro p hp g s st o hk
+    obtain ⟨hpc, _⟩ := hre p hp g s st o hk
+    obtain ⟨⟨p0, hp0, g0, hg0, h0⟩, hin, hall⟩ := h.re p hpc g s st o hk
+    obtain ⟨p0', hp0', hg0'⟩ := hfrom p0 hp0 g0 hg0
+    refine ⟨⟨p0', hp0', g0, hg0', h0⟩, hb ▸ hin, ?_⟩
+    intro p2 hp2 g2 hg2
+    obtain ⟨q2, hq2, hq2g⟩ := hto p2 hp2 g2 hg2
+    exact hall q2 hq2 g2 hq2g
+  · intro p hp g hg s hs
+    obtain ⟨p1, hp1, hg1⟩ := hto p hp g hg
+    rw [hb] at hs
+    rcases h.rb p1 hp1 g hg1 s hs with ⟨p', hp', g', st, o, hk⟩ | ⟨p', hp', g', hg', hi'⟩
+    · exact Or.inl ⟨p', hrefrom p' hp' g' s st o hk, g', st, o, hk⟩
+    · obtain ⟨p'', hp'', hg''⟩ := hfrom p' hp' g' hg'
+      exact Or.inr ⟨p'', hp'', g', hg'', hi'⟩
+  · intro p hp g hg hne
+    obtain ⟨p1, hp1, hg1⟩ := hto p hp g hg
+    rw [hb]; exact h.imax p1 hp1 g hg1 hne
+  · intro p hp g hg s s' hs
+    obtain ⟨p1, hp1, hg1⟩ := hto p hp g hg
+    rw [hb] at hs ⊢; exact h.down p1 hp1 g hg1 s s' hs
+  · intro p hp g hg s hs
+    obtain ⟨p1, hp1, hg1⟩ := hto p hp g hg
+    rw [hb] at hs; exact h.bmult p1 hp1 g hg1 s hs
+  · rw [hb, hn]; exact h.bjlt
+  · intro p1 hp1 p2 hp2 f1 s1 st1 o1 f2 s2 st2 o2 h1 h2
+    exact h.reone p1 (hre p1 hp1 f1 s1 st1 o1 h1).1 p2 (hre p2 hp2 f2 s2 st2 o2 h2).1 f1 s1 st1 o1 f2 s2 st2 o2 h1 h2
+
 end Asl.Crash
